@@ -235,6 +235,7 @@ static int g_maring_backend;
 static void *g_mblk[MAXBLK]; static int g_nmblk;       /* blocks handed out by mpool.alloc */
 #define MAXCTX 64
 static muggle_event_context_t g_ctx[MAXCTX]; static int g_ctxfd[MAXCTX][2]; static int g_nctx;
+static muggle_socket_context_t g_sctx[MAXCTX];
 
 static int cmp_ip(const void *a, const void *b)
 {
@@ -765,16 +766,34 @@ static void vh_op(int argc, char **argv)
 		g_nctx++;
 		evloop_st(st); line(RB(r == 0), st); return;
 	}
+#define SOCKH_ST() sprintf(st, "%c%c,n=%d", cell(g_sockh.ctx_queue), cell(g_sockh.mtx), \
+		(g_sockh.ctx_queue && tab_has(g_sockh.ctx_queue)) ? (int)muggle_queue_size(g_sockh.ctx_queue) : 0)
 	if (IS("sockh.init")) {
 		CAN_INIT(s_sockh); memset(&g_sockh, 0, sizeof(g_sockh));
 		ENTER(); int r = muggle_socket_evloop_handle_init(&g_sockh); LEAVE();
 		s_sockh = r == 0 ? S_OK : S_FAILED;
-		sprintf(st, "%c%c", cell(g_sockh.ctx_queue), cell(g_sockh.mtx)); line(RB(r == 0), st); return;
+		SOCKH_ST(); line(RB(r == 0), st); return;
 	}
 	if (IS("sockh.destroy")) {
 		NEED_INITED(s_sockh);
 		ENTER(); muggle_socket_evloop_handle_destroy(&g_sockh); LEAVE(); s_sockh = S_DESTROYED;
-		sprintf(st, "%c%c", cell(g_sockh.ctx_queue), cell(g_sockh.mtx)); line("void", st); return;
+		SOCKH_ST(); line("void", st); return;
+	}
+	if (IS("sockh.addctx")) {
+		NEED(s_sockh); NEED(s_evloop);
+		if (g_nctx >= MAXCTX) { printf("bad-op\n"); return; }
+		if (__real_pipe(g_ctxfd[g_nctx]) != 0) { printf("bad-op\n"); return; }
+		muggle_socket_ctx_init(&g_sctx[g_nctx], g_ctxfd[g_nctx][0], NULL, MUGGLE_SOCKET_CTX_TYPE_PIPE);
+		muggle_socket_evloop_handle_attach(&g_sockh, g_evloop);
+		ENTER();
+		/* works with the void signature of the unfixed tree (reported as ret=void) and the int one */
+		int r = __builtin_choose_expr(
+			__builtin_types_compatible_p(__typeof__(muggle_socket_evloop_add_ctx(g_evloop, &g_sctx[g_nctx])), void),
+			(muggle_socket_evloop_add_ctx(g_evloop, &g_sctx[g_nctx]), 12345),
+			muggle_socket_evloop_add_ctx(g_evloop, &g_sctx[g_nctx]));
+		LEAVE();
+		g_nctx++;
+		SOCKH_ST(); line(r == 12345 ? "void" : RB(r == 0), st); return;
 	}
 
 	if (IS("evpipe.init")) {
